@@ -190,6 +190,30 @@ func genC12(tier, out string, sum *Summary) {
 	sh.Flush()
 	sum.Cases = sh.total
 	sum.Shards = sh.files
+	// Go strings that are not valid UTF-8 (the caller's own data): a slice without a step hands on the bytes of the
+	// subject unchanged, a stepped one decodes byte by byte (an invalid byte is one U+FFFD); the model decides
+	{
+		tc := newTextCases("C12", out, sum)
+		for si, subj := range []string{"caf\xe9 au lait", "\xff", "a\xc3", "\xed\xa0\x80", "ab\x80cd", "\xc3\xa9\xc3", "\xf0\x9f\x98", "é\xffé", "\x80\x80\x80", "a\xe2\x82b", "\xc0\xaf", "\xf4\x90\x80\x80x"} {
+			for i, sl := range sliceTexts(tier) {
+				if tier != "thorough" && (i+si)%7 != 0 && sl != "[:]" && sl != "[0:]" && sl != "[::1]" && sl != "[0:4]" && sl != "[::-1]" {
+					continue
+				}
+				for _, form := range []string{"@%s", "a%s"} {
+					var doc any = subj
+					if form[0] == 'a' {
+						doc = map[string]any{"a": subj}
+					}
+					o := tc.run(fmt.Sprintf(form, sl), doc)
+					sum.count("invalid-utf8-subject/" + o.Kind)
+					if s, ok := o.Value.(string); ok && (sl == "[:]" || sl == "[0:]" || sl == "[::1]") && s != subj {
+						sum.direct("identity-slice", fmt.Sprintf(form, sl), doc, fmt.Sprintf("the whole-string slice of %q is %q", subj, s))
+					}
+				}
+			}
+		}
+		tc.done()
+	}
 	sum.Distinct = len(distinct)
 	sum.Exhaustive = tier == "thorough"
 	sum.Rule = fmt.Sprintf("every (start, stop, step) over the boundary pool (absent, 0, +-1, +-2, n, n+-1, -n, -n+-1, +-2^31, +-2^62, int64 limits) for arrays and mixed-width strings of length 0..%d, three spellings ([..], @[..], a[..]); quick samples 12%% of the combinations; a case is distinct/non-trivial by its (kind, length, result value)", maxN)
